@@ -548,6 +548,13 @@ def run(program):
                         must_be_identical("refused-append")
                     else:
                         try:
+                            if var == "dtype" and m.dtype == "f4":
+                                # accepted into a NARROWER float type: unless every value survives the cast exactly, what
+                                # the file now holds is not "the concatenation of everything written"
+                                data_new = built[op["table"]][1]
+                                lossy = [c for c in m.cols if np.any(np.asarray(data_new[c]).astype(np.float32).astype(np.float64) != np.asarray(data_new[c], dtype=np.float64))]
+                                if lossy:
+                                    v.append(Violation(PROPERTY, "C12.append-lossy", sig + ":append-accepted-but-values-narrowed-to-the-file's-float-type", "%s: float64 values of column(s) %s were accepted into a float32 file" % (op, lossy)))
                             m.append(tspec, built[op["table"]][1])
                         except Exception:  # noqa: BLE001
                             model[op["path"]] = "unknown"
